@@ -98,16 +98,26 @@ template <>
 struct default_color_converter_impl<xyz_t,rgb_t>
 {
 private:
+    // the result is clamped to [0, 1]: rounding can take a linear component slightly out of gamut,
+    // and channel_convert to an unsigned integral channel must not see a negative value
     BOOST_FORCEINLINE
     float32_t companding(float32_t sample) const
     {
-        if ( sample > 0.0031308f )
+        if ( sample > 1.f )
+        {
+            return 1.f;
+        }
+        else if ( sample > 0.0031308f )
         {
             return ( 1.055f * powf( sample, 1.f/2.4f ) - 0.055f );
         }
-        else
+        else if ( sample > 0.f )
         {
             return ( 12.92f * sample );
+        }
+        else
+        {
+            return 0.f;
         }
     }
 
